@@ -2,6 +2,7 @@ package checks
 
 import (
 	"encoding/binary"
+	"strings"
 
 	"github.com/google/go-tdx-guest/verify"
 	"verif/sim/core"
@@ -175,6 +176,36 @@ func c07Run(r *core.Run) {
 			longLived.GetCollateral, longLived.CheckRevocations = true, lvl == O2
 			longLived.Getter = w.PCS
 			opts = longLived
+		}
+		// "the fault first, then the genuine answer": before a verification that must reject, a box on the path
+		// answers once with an identity every QE satisfies (all-zero masks, one UpToDate level at 0) under the
+		// genuine document's signature value.  That answer does not verify; and whatever the verifier kept from the
+		// failed call, the next call is judged by the member Intel signed.
+		if mv.Exp == world.MustReject && t.Chance(1, 3) {
+			genuine := w.PCS.QE
+			if i := strings.Index(string(genuine.Body), `"signature":"`); i >= 0 {
+				sig := genuine.Body[i+len(`"signature":`):]
+				if j := strings.IndexByte(string(sig[1:]), '"'); j >= 0 {
+					sig = sig[:j+2]
+					agree := *w.QE
+					agree.MiscMask, agree.Misc, agree.AttrMask, agree.Attr = make([]byte, 4), make([]byte, 4), make([]byte, 16), make([]byte, 16)
+					agree.Mrsigner = append([]byte(nil), w.Quote.QE.MrSigner[:]...)
+					agree.ProdID = int(w.Quote.QE.IsvProdID)
+					agree.Levels = []world.QELevel{{Isvsvn: 0, Status: "UpToDate"}}
+					ep := genuine.Clone()
+					ep.Body = world.Envelope(world.Member{Key: "enclaveIdentity", Raw: agree.JSON()}, world.Member{Key: "signature", Raw: sig})
+					w.PCS.QE = ep
+					op := verifyRaw(raw, opts)
+					w.PCS.QE = genuine
+					r.Eval()
+					r.Eventf("event %d: agreeable identity under the genuine signature value served first -> %s", ev, errClass(op))
+					r.Fault("pcs:agreeable_identity_with_genuine_signature_value_served_first", true)
+					r.Probe("fault_first_then_genuine_identity")
+					if op.Accepted() {
+						r.Violate("C07:accepted:unsigned-agreeable-identity", "quote accepted on an identity document that the signature in the response does not cover")
+					}
+				}
+			}
 		}
 		o := verifyRaw(raw, opts)
 		r.Eval()
